@@ -109,6 +109,17 @@ def _long_literals():
                           "    assert Optional(s).is_exact_match('') and Optional(s).is_exact_match(s) and not Optional(s).is_exact_match(s[1:])\n"
                           "    assert (Pregex('x') + s + 'y').is_exact_match('x' + s + 'y')\n    assert Either('q', s).is_exact_match(s) and Capture(s).get_captures(s) == [(s,)]\n"
                           "    c = Pregex(s)\n    c.compile()\n    assert c.is_exact_match(s)\n    assert re.fullmatch(p.get_pattern(), s, 24)"),
+        ("long literals at alternation and concatenation junctions", "for s in ('\\\\' * 25, 'd\\\\' * 25, '\\\\' * 40 + 'x', '.' * 30, '|' * 26, '$' * 25, '[' * 30, 'a\\\\' * 24 + '\\\\'):\n    for build in (lambda: Either(s, 'b') + 'c', lambda: 'c' + Either('b', s), lambda: Either(s, '~') + Either('f', s),\n"
+                                                                     "                  lambda: Optional(Either(s, 'b')) + 'c', lambda: Concat(Either(s, 'b'), 'c'), lambda: Enclose(Either(s, 'b'), 'c')):\n        r = build()\n"
+                                                                     "        ok_texts = {0: [s + 'c', 'bc'], 1: ['cb', 'c' + s], 2: [s + 'f', '~' + s, s + s], 3: ['c', 'bc', s + 'c'], 4: [s + 'c', 'bc'], 5: ['c' + s + 'c', 'cbc']}\n"
+                                                                     "    for i, build in enumerate((lambda: Either(s, 'b') + 'c', lambda: 'c' + Either('b', s), lambda: Either(s, '~') + Either('f', s), lambda: Optional(Either(s, 'b')) + 'c', lambda: Concat(Either(s, 'b'), 'c'), lambda: Enclose(Either(s, 'b'), 'c'))):\n"
+                                                                     "        r = build()\n        for t in ok_texts[i]:\n            assert r.is_exact_match(t), (i, s[:6], t[:12])\n        assert not r.is_exact_match(s) or i == 3 and False, (i, s[:6])\n        assert not r.is_exact_match('b') and not r.is_exact_match(s + 'b' + 'c')"),
+        ("ten or more one-character operands", "chars = ['a', 'b', 'c', 'd', 'e', 'f', 'g', 'h', '-', 'z', '^', ']', '\\\\', '.', '[']\nfor n in (9, 10, 11, 15):\n    for ops in (chars[:n], list(reversed(chars[:n])), ['^'] + chars[:n - 1], [']', '-'] + chars[:n - 2]):\n        e = Either(*ops)\n"
+                                               "        for ch in 'abcdefghijklmnopqrstuvwxyz-^].[\\\\|0 ':\n            assert e.is_exact_match(ch) == (ch in ops), (n, ops[:3], ch)\n        assert not e.is_exact_match('ab') and not e.is_exact_match('')\n"
+                                               "        c = Concat(*ops)\n        assert c.is_exact_match(''.join(ops)) and not c.is_exact_match(''.join(ops)[:-1])"),
+        ("NUL and control characters followed by digits", "for s in ('\\x0012', '\\x000', '\\x007', '\\x00' + '8', 'a\\x001', '\\x01' + '1', '\\x1b[0m', '\\x7f7', '\\x00\\x00' + '77'):\n    p = Pregex(s)\n    assert p.is_exact_match(s) and not p.is_exact_match('\\n') and not p.is_exact_match(s[:-1]), repr(s)\n"
+                                                          "    q = Pregex(s[0]) + s[1:]\n    assert q.is_exact_match(s) and not q.is_exact_match('\\n'), repr(s)\n    for k in range(1, len(s)):\n        assert (Pregex(s[:k]) + Pregex(s[k:])).is_exact_match(s), (repr(s), k)\n"
+                                                          "    c = Pregex(s)\n    c.compile()\n    assert c.is_exact_match(s) and not c.is_exact_match('\\n')\n    assert Capture(s).get_captures('x' + s) == [(s,)] and AnyFrom(s[0], 'q').is_exact_match(s[0])"),
         ("long group names", "n = 'group_' + 'x' * 60\np = Capture('a', n) + Backreference(n)\nassert p.is_exact_match('aa') and p.get_named_captures('aa') == [{n: 'a'}]\n"
                              "q = Capture(Capture('a', n), 'short')\nimport re\nassert dict(re.compile(str(q)).groupindex) == {'short': 1}"),
     ]
@@ -172,12 +183,15 @@ def _matching():
 
 def _numeric():
     return [
-        ("integers with many digits", "from mc.props.numeric import ok\nfor lo, hi in ((0, 10 ** 12), (123456789, 9876543210), (10 ** 10, 10 ** 10 + 5), (999999999999, 10 ** 15), (0, 2 ** 64)):\n    p = Integer(lo, hi)\n"
+        ("integers with many digits", "from mc.props.numeric import ok\nfor lo, hi in ((0, 10 ** 12), (123456789, 9876543210), (10 ** 10, 10 ** 10 + 5), (999999999999, 10 ** 15), (0, 2 ** 64), (100, 10 ** 15 - 1), (5, 10 ** 16 - 1), (100, 10 ** 18 - 1), (12, 10 ** 20 - 1), (0, 2147483647), (7, 10 ** 9 - 1)):\n    p = Integer(lo, hi)\n    for v in (0, 5, 10, 42, 99, 100, 2147483647, 2147483648, 9999999999, 10 ** 10):\n        assert p.is_exact_match(str(v)) == (lo <= v <= hi), (lo, hi, v)\n"
                                       "    for v in (lo, hi, lo - 1, hi + 1, (lo + hi) // 2, lo * 10, hi // 10, lo + 1, hi - 1, 10 ** len(str(hi)) - 1, 10 ** (len(str(lo)) - 1)):\n        if v < 0:\n            continue\n"
                                       "        s = str(v)\n        assert p.is_exact_match(s) == (lo <= v <= hi), (lo, hi, s)\n        assert p.get_matches(' ' + s + ' ') == ([s] if lo <= v <= hi else []), (lo, hi, s)\n"
                                       "        assert not p.is_exact_match('0' + s), (lo, hi, s)\n        q = Pregex('id') + Integer(lo, hi, is_extensible=True)\n        assert q.is_exact_match('id' + s) == (lo <= v <= hi), (lo, hi, s)"),
         ("ranges whose bounds have ten to thirteen digits, all neighbours", "lo, hi = 9999999990, 10000000010\np = Integer(lo, hi)\nfor v in range(lo - 12, hi + 13):\n    assert p.is_exact_match(str(v)) == (lo <= v <= hi), v\n"
                                                                           "p2 = NegativeInteger(99, 1001)\nfor v in range(90, 1012):\n    assert p2.is_exact_match('-' + str(v)) == (99 <= v <= 1001), v"),
+        ("decimal integer parts with interior zeros and many digits", "for lo, hi in ((0, 5000), (0, 2147483647), (1000, 100000), (99, 10 ** 12)):\n    for ip in ('1000', '2004', '1001', '10000', '100', '5000', '5001', '20000', '100000', '100001', '1000000000', '1000000', '999', '99', '0', '00', '0100'):\n        for fr in ('5', '25'):\n"
+                                                                      "            canon = ip == '0' or not ip.startswith('0')\n            exp = canon and lo <= int(ip) <= hi\n            assert Decimal(lo, hi, 1, 2).is_exact_match(ip + '.' + fr) == exp, (lo, hi, ip)\n"
+                                                                      "            assert NegativeDecimal(lo, hi, 1, 2).is_exact_match('-' + ip + '.' + fr) == exp, (lo, hi, ip)\n            assert (Pregex('a') + UnsignedDecimal(lo, hi, 1, 2, is_extensible=True)).is_exact_match('a' + ip + '.' + fr) == exp, (lo, hi, ip)"),
         ("decimal places with two digits", "for mn, mx in ((10, 10), (10, 12), (9, 11), (12, None), (1, 100)):\n    p = Decimal(0, 99, mn, mx)\n    for k in (1, 8, 9, 10, 11, 12, 13, 99, 100, 101):\n"
                                            "        s = '7.' + '5' * k\n        assert p.is_exact_match(s) == (mn <= k and (mx is None or k <= mx)), (mn, mx, k)\n"
                                            "        assert (Pregex('a') + Decimal(0, 99, mn, mx, is_extensible=True) + 'kg').is_exact_match('a' + s + 'kg') == (mn <= k and (mx is None or k <= mx)), (mn, mx, k)"),
@@ -185,7 +199,13 @@ def _numeric():
                                                      "        assert Numeral(16, lo, hi).is_exact_match('f' * k) == exp, (lo, hi, k)\n        assert Numeral(2, lo, hi, is_extensible=True).is_exact_match('10' * (k // 2) + '1' * (k % 2)) == exp, (lo, hi, k)\n"
                                                      "        assert Word(lo, hi).is_exact_match('w' * k) == exp, (lo, hi, k)\n        assert Word(lo, hi, is_extensible=True).is_exact_match('w' * k) == exp, (lo, hi, k)\n"
                                                      "        assert Word(lo, hi).get_matches(' ' + 'w' * k + ' ') == (['w' * k] if exp else []), (lo, hi, k)"),
+        ("length bounds with five and more digits", "for hi in (65534, 65535, 65536, 70000, 100000):\n    for mk, unit in ((lambda: Word(1, hi), 'w'), (lambda: Word(3, hi, is_extensible=True), 'w'), (lambda: Numeral(2, 3, hi), '1'), (lambda: Numeral(16, 1, hi, is_extensible=True), 'f')):\n        p = mk()\n"
+                                                    "        assert p.is_exact_match(unit * hi) and not p.is_exact_match(unit * (hi + 1)) and p.is_exact_match(unit * (hi - 1)), hi\n"
+                                                    "assert AtMost('a', 70000).is_exact_match('a' * 70000) and not AtMost('a', 70000).is_exact_match('a' * 70001)\nassert AtLeastAtMost('ab', 2, 65535).is_exact_match('ab' * 65535) and not AtLeastAtMost('ab', 2, 65535).is_exact_match('ab' * 65536)"),
         ("long affixes and many affixes", "affs = ['k%02d.' % i for i in range(14)]\np = WordContains(affs)\nfor a in affs:\n    assert p.is_exact_match('xx' + a + 'yy') and not p.is_exact_match('xx' + a.replace('.', 'z') + 'yy'), a\n"
+                                          "for aff in ('1' + '.0' * 25, 'a' + '(' * 30 + 'a', 'a' + '|b' * 26, 'x' + '$' * 25 + 'x', 'q' + '[a]' * 12 + 'q'):\n    for cls, t in ((WordContains, 'xx' + aff + 'yy'), (WordStartsWith, aff + 'yy'), (WordEndsWith, 'xx' + aff)):\n        assert cls(aff).is_exact_match(t), (cls.__name__, aff[:8])\n"
+                                          "        assert not cls(aff).is_exact_match(t.replace(aff, aff[:-2] + 'Q' + aff[-1:])), (cls.__name__, aff[:8])\n        assert not cls(aff).is_exact_match(t.replace(aff, aff.replace('.', 'z').replace('|', '/').replace('(', 'z').replace('$', 'z').replace('[', 'z'))) or not any(ch in aff for ch in '.|($['), aff[:8]\n"
+                                          "affs = ['a.b', 'c+', 'd']\nfirst = [str(WordContains(affs)), str(WordStartsWith(affs)), str(WordEndsWith(affs))]\nassert affs == ['a.b', 'c+', 'd']\nfor i in range(3):\n    assert [str(WordContains(affs)), str(WordStartsWith(affs)), str(WordEndsWith(affs))] == first, i\n    assert affs == ['a.b', 'c+', 'd']\n"
                                           "long = 'pre' * 20 + '+x'\nassert WordStartsWith(long).is_exact_match(long + 'abc') and not WordStartsWith(long).is_exact_match(long[1:] + 'abc')\n"
                                           "assert WordEndsWith([long, 'z' * 40]).is_exact_match('abc' + 'z' * 40) and WordEndsWith([long, 'z' * 40]).is_exact_match('q' + long)"),
     ]
@@ -209,6 +229,10 @@ def _meta_lang():
 
 def _history():
     return [
+        ("compile() does not change what long or astral patterns match", "for s in ('\\U0001f600', 'a\\U0001f600b', '\\U00010000', '\\U0010ffff\\U0001f468\\u200d\\U0001f469', '\\u202f', '\\u2028x', 'x' * 300 + '\\U0001f600', '\\ud7ff\\ue000', '\\x85\\xa0'):\n    t = 'q' + s + ' ' + s + s\n"
+                                                                          "    for mk in (lambda: Pregex(s), lambda: Optional('z') + s, lambda: Capture(AnyFrom(s[0], 'z')) + s[1:], lambda: Pregex(s).exactly(1).concat('')):\n        p = mk()\n        before = (p.get_matches(t), p.is_exact_match(s), p.get_matches_and_pos(t))\n"
+                                                                          "        p.compile()\n        assert (p.get_matches(t), p.is_exact_match(s), p.get_matches_and_pos(t)) == before, repr(s)[:20]\n        p.get_compiled_pattern(discard_after=True)\n        assert (p.get_matches(t), p.is_exact_match(s), p.get_matches_and_pos(t)) == before\n"
+                                                                          "        import re\n        assert re.fullmatch(p.get_pattern(), s, 24) or len(p.get_matches(s)) != 1"),
         ("an object reused a dozen times", "x = Either('a', 'b')\nfirst = (str(x), str(Optional(x)), str(x + 'c'), str(Capture(x, 'n')), str(x.exactly(10)))\nfor i in range(12):\n    Group(x, i % 2 == 0); Capture(x, 'g%d' % i); x + str(i); x.exactly(i + 9); Indefinite(x, False); x.get_matches('ab' * i)\n"
                                            "    if i % 3 == 0:\n        x.compile()\n    if i % 4 == 0:\n        x.get_compiled_pattern(discard_after=True)\n"
                                            "    assert (str(x), str(Optional(x)), str(x + 'c'), str(Capture(x, 'n')), str(x.exactly(10))) == first, i\n    assert x.get_matches('abc') == ['a', 'b']\n"
@@ -217,8 +241,8 @@ def _history():
 
 
 FAMILIES = {
-    'C01': _long_literals, 'C02': lambda: _q_cases()[:20] + _many_groups() + _nary() + _deep(), 'C03': lambda: _nary() + _deep() + _long_literals() + _many_groups() + _classes_more()[:2] + _groups_scale(),
-    'C04': _q_cases, 'C05': lambda: _nary()[3:], 'C06': lambda: _classes()[:1] + _classes_more()[:2], 'C07': lambda: _classes()[1:] + _classes_more()[2:], 'C08': lambda: _many_groups() + _deep()[1:] + _long_literals()[1:] + _groups_scale(),
+    'C01': _long_literals, 'C02': lambda: _q_cases()[:20] + _many_groups() + _nary() + _deep() + _long_literals()[1:3], 'C03': lambda: _nary() + _deep() + _long_literals() + _many_groups() + _classes_more()[:2] + _groups_scale() + FAMILIES['C10']()[-1:],
+    'C04': _q_cases, 'C05': lambda: _nary()[3:], 'C06': lambda: _classes()[:1] + _classes_more()[:2], 'C07': lambda: _classes()[1:] + _classes_more()[2:], 'C08': lambda: _many_groups() + _deep()[1:] + _long_literals()[4:] + _groups_scale(),
     'C09': lambda: _nary()[4:] + [("wide repetition of assertions", "for n in (10, 11, 100):\n    for mk in (lambda: MatchAtStart('a'), lambda: FollowedBy('a', 'b'), lambda: EnclosedBy('a', 'b'), lambda: MatchAtLineEnd('a' * 40)):\n"
                                     "        for q in (lambda x: Exactly(x, n), lambda x: x * n, lambda x: AtLeastAtMost(x, 1, n), lambda x: AtLeast(x, n)):\n            try:\n                r = q(mk())\n            except CannotBeRepeatedException:\n                continue\n            raise AssertionError(str(r))\n"
                                     "    assert str(Exactly('a' * 40 + '$', n)).endswith('{%d}' % n)\n"
@@ -234,7 +258,7 @@ FAMILIES = {
                                     "        try:\n            r = NotPrecededBy('k', y)\n        except NonFixedWidthPatternException:\n            continue\n        raise AssertionError(str(r))\n"
                                     "assert PrecededBy('k', 'ab' * 50).get_matches('ab' * 50 + 'k') == ['k'] and PrecededBy('k', 'ab' * 50).get_matches('ab' * 49 + 'bk') == []")],
     'C11': _matching, 'C12': lambda: _matching() + _many_groups()[:2], 'C13': lambda: _matching() + _many_groups()[4:], 'C14': _matching,
-    'C15': lambda: _numeric()[:2], 'C16': lambda: _numeric()[2:3], 'C17': lambda: _numeric()[3:], 'C18': _meta_lang, 'C19': _meta_lang, 'C20': _history,
+    'C15': lambda: _numeric()[:2], 'C16': lambda: _numeric()[2:4], 'C17': lambda: _numeric()[4:], 'C18': _meta_lang, 'C19': _meta_lang, 'C20': _history,
 }
 
 
